@@ -15,7 +15,7 @@ ASSUMPTIONS = ["the comparison is against the library's own computation on a fre
 NSHARDS = {"quick": 32, "thorough": 64}
 BUDGET_S = {"quick": 200, "thorough": 2400}
 MIN_HITS = {
-    'quick': {"history": 8377, "sighash_step": 8677, "probe": 104328, "mut_after_fill": 2238, "slots_nonempty": 10571, "op_set_input": 6010, "op_set_output": 4479, "long_history": 48},
+    'quick': {"history": 10555, "sighash_step": 9343, "probe": 123286, "mut_after_fill": 3136, "slots_nonempty": 13085, "op_set_input": 6478, "op_set_output": 4864, "long_history": 48},
     'thorough': {"history": 139802, "sighash_step": 935724, "probe": 4768161, "mut_after_fill": 66234, "op_set_input": 614446, "op_set_output": 460201, "long_history": 5760},
 }
 
